@@ -454,6 +454,13 @@ class Kernel(object):
             if d is None or (isinstance(pth, str) and (pth == d or pth.startswith(d + '/'))):
                 return f['errno']
             return None
+        if what == 'name_errno':    # op N on any path whose last component is B fails (whatever directory)
+            if name not in f['ops']:
+                return None
+            pth = ev[3]
+            if isinstance(pth, str) and posixpath.basename(pth) == f['basename']:
+                return f['errno']
+            return None
         raise HarnessError('unknown condition %r' % (what,))
 
     def done(self, ev, result=None):
